@@ -14,14 +14,14 @@ KANI_FOR = {
 }
 
 # property -> bounded native stand-in (never counted as proved): the BTOR2 line parser / writer, which the weaver cannot extract
-FMT_SUITES = ['fmt:' + f for f in ['btor2', 'cnf', 'cnf8', 'wcnf', 'gcnf', 'satlog', 'satlog_ign', 'aag', 'aig']]
-STREAMING = ['fmt:btor2', 'fmt:cnf', 'fmt:cnf8', 'fmt:wcnf', 'fmt:gcnf']
+FMT_SUITES = ['fmt:' + f for f in ['btor2', 'cnf', 'cnf8', 'wcnf', 'gcnf', 'satlog', 'satlog_ign', 'aag', 'aig', 'aag_stream', 'aig_stream']]
+STREAMING = ['fmt:btor2', 'fmt:cnf', 'fmt:cnf8', 'fmt:wcnf', 'fmt:gcnf', 'fmt:aag_stream', 'fmt:aig_stream']
 DIMACS = ['dimacs:cnf', 'dimacs:wcnf', 'dimacs:gcnf']
 AIGER = ['aiger:aag', 'aiger:aig']
 # property -> bounded native stand-in suites (standin/src/*.rs); bounded, never counted as proved
 STANDIN_FOR = {
-    'C01': FMT_SUITES, 'C02': ['reader'], 'C03': [s for s in FMT_SUITES if 'satlog' not in s] + AIGER, 'C04': FMT_SUITES, 'C05': FMT_SUITES,
-    'C06': DIMACS + AIGER, 'C07': DIMACS, 'C08': FMT_SUITES + DIMACS, 'C09': STREAMING + ['reader'], 'C10': ['reader', 'mem'], 'C11': ['writer'],
+    'C01': FMT_SUITES, 'C02': ['reader'], 'C03': [s for s in FMT_SUITES if 'satlog' not in s and 'stream' not in s] + AIGER, 'C04': FMT_SUITES, 'C05': FMT_SUITES,
+    'C06': DIMACS + AIGER, 'C07': DIMACS + ['dimacs:satlog'], 'C08': FMT_SUITES + DIMACS, 'C09': STREAMING + ['reader'], 'C10': ['reader', 'mem'], 'C11': ['writer'],
     'C12': ['renumber'], 'C13': ['scan'], 'C14': ['reader', 'raw'], 'C16': ['scan'],
 }
 SUITE_FN = {
@@ -34,6 +34,9 @@ SUITE_FN = {
     'fmt:satlog_ign': ('flussab_cnf::sat_solver_log::parse_log<i32> with ignore_unknown_lines', 'flussab-cnf/src/sat_solver_log.rs'),
     'fmt:aag': ('flussab_aiger::ascii::Parser<u32>::parse / Writer::write_aig', 'flussab-aiger/src/ascii.rs'),
     'fmt:aig': ('flussab_aiger::binary::Parser<u16>::parse / Writer::write_ordered_aig', 'flussab-aiger/src/binary.rs'),
+    'fmt:aag_stream': ('flussab_aiger::ascii section readers (ParseInputs .. ParseSymbols, comment) with u8 literals', 'flussab-aiger/src/ascii.rs'),
+    'fmt:aig_stream': ('flussab_aiger::binary section readers (ParseLatches .. ParseSymbols, comment) with u32 literals', 'flussab-aiger/src/binary.rs'),
+    'dimacs:satlog': ('flussab_cnf::sat_solver_log::parse_log on structured logs', 'flussab-cnf/src/sat_solver_log.rs'),
     'dimacs:cnf': ('flussab_cnf::cnf::Parser<i32> on structured documents', 'flussab-cnf/src/cnf.rs'),
     'dimacs:wcnf': ('flussab_cnf::wcnf::Parser<isize> on structured documents', 'flussab-cnf/src/wcnf.rs'),
     'dimacs:gcnf': ('flussab_cnf::gcnf::Parser<i16> on structured documents', 'flussab-cnf/src/gcnf.rs'),
